@@ -165,6 +165,33 @@ PROPS['C09'] = {
 }
 PROPS['C07']['units'].append('recon')
 PROPS['C07']['units'].append('genloop')
+PROPS['C01'] = {
+    'units': ['rename', 'serdecase'],
+    'title': 'field wire names equal serde\'s JSON keys (IR kernel)',
+    'technique': 'Verus postcondition on parser.rs::get_ident + rename_all_to_case + the RenameExt methods (extracted verbatim) against serde_derive\'s '
+                 'field algorithm (itself proved for the vendored case.rs); emission into six target languages only by a bounded stand-in',
+    'level_text': 'For every identifier, rule and attribute outcome: the name typeshare records for a field (Id.renamed, the string every back end '
+                  'prints as the key) is the serde(rename) value if present, otherwise serde_derive\'s apply_to_field of the identifier with the raw '
+                  'prefix removed (outside the listed known-finding classes, which do not contain conventionally named fields), otherwise the identifier.',
+    'level_note': 'Kernel at the IR level. That each back end binds exactly Id.renamed as the key (quoted property, SerialName, CodingKeys, json tag, '
+                  'pydantic alias) is text emission: NOT proved, covered only by the bounded stand-in wire-search (labelled bounded). serde_rename / '
+                  'serde_rename_all extraction are syn walks (stubs).',
+    'design_ref': 'DESIGN.md section 10.8',
+    'bounded': ['wire_c01'],
+}
+PROPS['C02'] = {
+    'units': ['rename', 'serdecase'],
+    'title': 'enum variant wire names equal serde\'s (IR kernel)',
+    'technique': 'the same contracts as C01 in variant position (get_ident is the single entry point for fields and variants) against serde_derive\'s '
+                 'apply_to_variant; tag / content keys and emission only by a bounded stand-in',
+    'level_text': 'For every identifier and rule the name recorded for an enum variant is the serde(rename) value if present, otherwise serde_derive\'s '
+                  'apply_to_variant of the identifier (outside the listed known-finding classes, which do not contain UpperCamelCase variants with a '
+                  'lowercase letter), otherwise the identifier.',
+    'level_note': 'Kernel at the IR level. Tag and content keys (get_tag_key / get_content_key are syn walks), one case per variant, and the printing of '
+                  'names and keys in six languages are NOT proved; bounded stand-in wire-search only.',
+    'design_ref': 'DESIGN.md section 10.8',
+    'bounded': ['wire_c02'],
+}
 PROPS['C03']['bounded'] = ['merge', 'tos']
 PROPS['C06']['bounded'] = ['merge', 'cli_determinism']
 PROPS['C11']['bounded'] = ['topo', 'deps']
@@ -175,7 +202,7 @@ PROPS['C18']['bounded'] = ['kint']
 PROPS['C20']['bounded'] = ['cfg_all', 'cli_config']
 PROPS['C07']['bounded'] = ['rename', 'topo', 'cli_robust']
 
-NOT_APPLICABLE = {k: NA_TEXT for k in ['C01', 'C02', 'C04', 'C05', 'C08', 'C10', 'C12', 'C14', 'C15', 'C19']}
+NOT_APPLICABLE = {k: NA_TEXT for k in ['C04', 'C05', 'C08', 'C10', 'C12', 'C14', 'C15', 'C19']}
 
 ALL_UNITS = ['topo', 'rename', 'cfg', 'cfg_all', 'merge', 'write']
 ALL_KANI = ['kint']
